@@ -2,7 +2,7 @@
    commutative on 128-bit blocks.  Commutativity is obtained from additivity and a complete sweep of
    the 128 x 128 pairs of basis elements (vm_compute). *)
 From Coq Require Import List NArith Arith Bool Lia ZifyN ZifyNat ZifyBool Btauto.
-From GmsmVerif Require Import SM4.SM4Proofs SM4.GCMSpec SM4.GCMFieldSweep.
+From GmsmVerif Require Import SM4.SM4Lemmas SM4.GCMSpec SM4.GCMFieldSweep.
 Import ListNotations.
 Local Open Scope N_scope.
 
